@@ -31,7 +31,7 @@ impl Monitor for C12 {
         if tier == Tier::Sanitizer {
             vec!["uplinks_checked"]
         } else {
-            vec!["uplinks_checked", "adrackreq_expected", "backoff_step_expected", "ack_expected", "accepted_downlink", "rejected_downlink", "adr_toggle", "at_lowest_rate_with_n_ge_64", "classc_downlink", "two_classc_downlinks", "mask_limited_uplinks", "adr_set_again", "classc_then_classa_downlink", "radio_faults", "port0_empty_uplinks", "lazy_application_histories", "one_subband_uplinks", "one_subband_backoff_steps"]
+            vec!["uplinks_checked", "adrackreq_expected", "backoff_step_expected", "ack_expected", "accepted_downlink", "rejected_downlink", "adr_toggle", "at_lowest_rate_with_n_ge_64", "classc_downlink", "two_classc_downlinks", "mask_limited_uplinks", "adr_set_again", "classc_then_classa_downlink", "radio_faults", "port0_empty_uplinks", "lazy_application_histories", "reactivated_by_personalisation", "one_subband_uplinks", "one_subband_backoff_steps"]
         }
     }
 
@@ -231,7 +231,7 @@ fn n_class(n: u32) -> &'static str {
 
 fn history(front: Front, reg: Reg, rng: &mut Prng, col: &mut Collector) {
     let opts = DevOpts { rng_seed: Some(rng.next_u64()), ..Default::default() };
-    let Ok((mut dev, net)): Result<(Dev, Net), _> = abp_dev(front, reg, rng, &opts, |_| {}) else {
+    let Ok((mut dev, mut net)): Result<(Dev, Net), _> = abp_dev(front, reg, rng, &opts, |_| {}) else {
         col.event("harness_session_json_rejected");
         return;
     };
@@ -263,6 +263,22 @@ fn history(front: Front, reg: Reg, rng: &mut Prng, col: &mut Collector) {
             suspended = true;
             col.event("adr_toggle");
             recent.push(format!("set_adr({})", adr));
+        }
+        if rng.chance(1, 250) {
+            // the application activates the device again by personalisation, with the same keys and
+            // (two times out of three) another address: a new session, whose uplinks carry its address
+            if rng.chance(2, 3) {
+                net.addr = net.addr.wrapping_add(1 + rng.below(1000) as u32);
+            }
+            dev.join_abp(net.nwk, net.app, net.addr);
+            let d = dev.snapshot().data_rate;
+            models = vec![(0, d)];
+            ack_owed = false;
+            suspended = false;
+            fcnt_down = 0;
+            up_min = 0;
+            col.event("reactivated_by_personalisation");
+            recent.push(format!("join(ABP) addr={:08x}", net.addr));
         }
         if adr && rng.chance(1, 60) {
             // switching ADR on while it is on changes nothing: the count goes on
